@@ -197,19 +197,6 @@ Qed.
 Lemma skipn_all_nil {A} (l : list A) : skipn (length l) l = [].
 Proof. induction l; cbn; auto. Qed.
 
-Section Proc.
-Variable L0 : list event.
-Let n := length L0.
-Hypothesis HW0 : WFL L0.
-Hypothesis Hfirst : nth_error L0 0 = Some (EStart K_SOURCE_FILE None).
-Hypothesis Hlast : nth_error L0 (n - 1) = Some EFinish.
-Hypothesis Hpre : forall k, 0 < k < n -> (1 <= exc (firstn k L0))%Z.
-Hypothesis Htot : exc L0 = 0%Z.
-
-Lemma exc_suffix0 k : exc (skipn k L0) = (- exc (firstn k L0))%Z.
-Proof. pose proof (exc_firstn_skipn L0 k). lia. Qed.
-
-Definition EndsSF (out : list step) : Prop := exists o, out = o ++ [StEnter K_SOURCE_FILE].
 Definition stokn (x : step) : nat := match x with StToken _ n => n | _ => 0 end.
 Fixpoint stoksum (l : list step) : nat := match l with [] => 0 | x :: r => stokn x + stoksum r end.
 Definition stokpos (x : step) : Prop := match x with StToken _ n => 0 < n | _ => True end.
@@ -224,6 +211,20 @@ Proof.
   - cbn [skipn]. rewrite (IH i e H). reflexivity.
 Qed.
 
+
+Section Proc.
+Variable L0 : list event.
+Let n := length L0.
+Hypothesis HW0 : WFL L0.
+Hypothesis Hfirst : nth_error L0 0 = Some (EStart K_SOURCE_FILE None).
+Hypothesis Hlast : nth_error L0 (n - 1) = Some EFinish.
+Hypothesis Hpre : forall k, 0 < k < n -> (1 <= exc (firstn k L0))%Z.
+Hypothesis Htot : exc L0 = 0%Z.
+
+Lemma exc_suffix0 k : exc (skipn k L0) = (- exc (firstn k L0))%Z.
+Proof. pose proof (exc_firstn_skipn L0 k). lia. Qed.
+
+Definition EndsSF (out : list step) : Prop := exists o, out = o ++ [StEnter K_SOURCE_FILE].
 Lemma ploop fuel : forall L i out,
   1 <= i <= n - 1 -> n - i <= fuel -> length L = n -> WFL L ->
   (forall j e, nth_error L0 j = Some e -> (forall k f, e <> EStart k f) -> nth_error L j = Some e) ->
